@@ -642,6 +642,23 @@ type searchRequest struct {
 	revision revision
 }
 
+// mergePending takes over the parts of a request that has not been consumed
+// by the coordinator and is about to be replaced by this one
+func (r *searchRequest) mergePending(prev searchRequest) {
+	r.changed = r.changed || prev.changed
+	if r.nth == nil {
+		r.nth = prev.nth
+	}
+	if r.command == nil {
+		r.command, r.sync, r.environ = prev.command, prev.sync, prev.environ
+	} else if prev.command != nil {
+		removeFiles(prev.command.tempFiles)
+	}
+	if r.revision == prev.revision {
+		r.denylist = append(append([]int32{}, prev.denylist...), r.denylist...)
+	}
+}
+
 type previewRequest struct {
 	template     string
 	scrollOffset int
@@ -6151,7 +6168,14 @@ func (t *Terminal) Loop() error {
 		t.mutex.Unlock() // Must be unlocked before touching reqBox
 
 		if reload {
-			t.eventBox.Set(EvtSearchNew, *reloadRequest)
+			// The coordinator may not have consumed the previous request yet.
+			// Carry over what it asked for instead of overwriting it.
+			t.eventBox.Update(EvtSearchNew, func(pending any) any {
+				if prev, ok := pending.(searchRequest); ok {
+					reloadRequest.mergePending(prev)
+				}
+				return *reloadRequest
+			})
 		}
 		for _, event := range events {
 			t.reqBox.Set(event, nil)
